@@ -174,8 +174,19 @@ var strVars = []string{"s0", "s1"}
 var failVars = []string{"f0", "f1"}
 
 type Gen struct {
-	r *Rand
-	c GenCfg
+	r      *Rand
+	c      GenCfg
+	budget int // remaining nodes; 0 = not initialised
+	init   bool
+}
+
+func (g *Gen) spend() bool {
+	if !g.init {
+		g.init = true
+		g.budget = 600
+	}
+	g.budget--
+	return g.budget > 0
 }
 
 func pick(r *Rand, l []string) string { return l[r.Intn(len(l))] }
@@ -216,6 +227,9 @@ func (g *Gen) Bool(d int) *GT {
 	r := g.r
 	if g.c.WrongType > 0 && r.Chance(g.c.WrongType) {
 		return g.Int(d)
+	}
+	if !g.spend() {
+		d = 0
 	}
 	if d <= 0 || r.Intn(5) == 0 {
 		switch x := r.Intn(10); {
@@ -322,6 +336,9 @@ func (g *Gen) Int(d int) *GT {
 		default:
 			return gconst([]int64{1, 2})
 		}
+	}
+	if !g.spend() {
+		d = 0
 	}
 	if d <= 0 || r.Intn(4) == 0 {
 		switch x := r.Intn(10); {
